@@ -24,6 +24,7 @@ public:
     explicit PreambleDetector(const arr_cmplx& h, real_t threshold = 0.5);
 
     PreambleDetector(const PreambleDetector&) = delete;
+    PreambleDetector& operator=(const PreambleDetector&) = delete;
 
     struct Result
     {
